@@ -34,6 +34,22 @@ def make_graph(k, ghost, n_edges, name="Cut"):
     Cut = common.opaque_edge_class(k, ghost, name=name)
     vs = [r.Vertex(0, r.PoseR2([k.real("v0x"), k.real("v0y")])), r.Vertex(1, r.PoseR2([k.real("v1x"), k.real("v1y")]))]
     # n_edges == "fixed-only-edge": besides a binary edge, an edge that touches only the fixed vertex 0 (its chi2 still counts)
+    if n_edges == "fixed-only-edge-real":
+        # ... and one whose contributions come from the REAL BaseEdge.calc_chi2_gradient_hessian (only calc_error is cut)
+        u, Om = k.vec("u", 2), k.spd_matrix("Ou", 2)
+        c_u = u[0] * Om[0, 0] * u[0] + u[0] * Om[0, 1] * u[1] + u[1] * Om[1, 0] * u[0] + u[1] * Om[1, 1] * u[1]
+
+        class ErrEdge(r.BaseEdge):
+            def calc_error(self):
+                return k.np.array(u)
+
+            def is_valid(self):
+                return self._is_valid()
+
+            def _chi2(self):
+                return c_u
+        es = [Cut([0, 1]), ErrEdge([0], Om, None)]
+        return r.Graph(es, vs), es, vs
     layout = [[0, 1], [0]] if n_edges == "fixed-only-edge" else [[0, 1], [1, 0], [1]][:n_edges]
     es = [Cut(list(ids)) for ids in layout]
     return r.Graph(es, vs), es, vs
@@ -122,7 +138,7 @@ def obligations(r, tier, seed):
     obs = []
     iters = (1, 2, 3, 4) if tier == "quick" else (1, 2, 3, 4, 5, 6)
     for max_iter in iters:
-        for n_edges in (((2,) if max_iter > 2 else (1, 3)) if tier == "quick" else (1, 2, 3)) + (("fixed-only-edge",) if max_iter <= 2 or tier == "thorough" else ()):
+        for n_edges in (((2,) if max_iter > 2 else (1, 3)) if tier == "quick" else (1, 2, 3)) + (("fixed-only-edge", "fixed-only-edge-real") if max_iter <= 2 or tier == "thorough" else ()):
             for verbose in (False, True):
                 for tol_zero in (False, True):
                     if tier == "quick" and verbose and tol_zero:
